@@ -253,8 +253,25 @@ def register_dataclass_type_with_jax_tree_util(data_class):
         constructable from keyword arguments corresponding to the members exposed
         in instance.__dict__.
     """
-    flatten = lambda d: jax.util.unzip2(sorted(d.__dict__.items()))[::-1]
-    unflatten = lambda keys, values: data_class(**dict(zip(keys, values)))
+    field_names = frozenset(f.name for f in dataclasses.fields(data_class))
+
+    def _is_static(value):
+        # Dimensions, flags and callables are structure, not data.
+        return callable(value) or isinstance(value, (bool, int, str))
+
+    def flatten(d):
+        # Only declared fields are passed back to the constructor; caches that
+        # live next to them in __dict__ (e.g. lnZ, mu of a measure) are recomputed.
+        items = sorted((k, v) for k, v in d.__dict__.items() if k in field_names)
+        keys = tuple(k for k, v in items if not _is_static(v))
+        values = tuple(v for k, v in items if not _is_static(v))
+        static = tuple((k, v) for k, v in items if _is_static(v))
+        return values, (keys, static)
+
+    def unflatten(aux, values):
+        keys, static = aux
+        return data_class(**dict(zip(keys, values)), **dict(static))
+
     try:
         jax.tree_util.register_pytree_node(
             nodetype=data_class, flatten_func=flatten, unflatten_func=unflatten
